@@ -37,7 +37,7 @@ MUST_SEE = [
     "class_swap", "lifetime_rechecks", "rebuild_legs", "is_equal_true", "is_equal_false",
 ]
 CONFIG = {
-    "quick": {"shards": 16, "seeds": 40, "variants": 14, "common": 60, "watchdog_s": 300},
+    "quick": {"shards": 16, "seeds": 250, "variants": 14, "common": 60, "watchdog_s": 300},
     "thorough": {"shards": 32, "seeds": 500, "variants": 20, "common": 200, "watchdog_s": 3000},
 }
 
